@@ -126,6 +126,7 @@ type knownFinding struct {
 type baselineFile struct {
 	Properties map[string][]string `json:"properties"` // property -> obligations discharged on the pinned tree
 	Functions  map[string][]string `json:"functions"`  // property -> functions under contract
+	WireReplay []string            `json:"wire_replay,omitempty"` // "Type/vN": the round-trip replay harness passes on the pinned tree
 }
 
 const verifDir = "/verif"
@@ -357,6 +358,10 @@ func cmdBaseline(args []string) {
 		for _, e := range run.lowerErrs {
 			fmt.Println("  error:", e)
 		}
+		if hasProp(p.wireProps, prop) {
+			b.WireReplay = p.wireReplayBaseline()
+			fmt.Printf("%s: round-trip replay harness passes for %d (type, version) cases\n", prop, len(b.WireReplay))
+		}
 	}
 	os.MkdirAll(filepath.Join(verifDir, "baseline"), 0o755)
 	data, _ := json.MarshalIndent(b, "", " ")
@@ -508,7 +513,13 @@ func cmdCheck(args []string) {
 	for _, r := range violations {
 		path := writeViolation(p, prop, r)
 		suffix := ""
-		if !strings.HasPrefix(r.Output, "replayed: ") {
+		if strings.HasPrefix(r.Ob.Kind, "wire-") {
+			if rp, reproduced := p.wireReplay(prop, r, base); reproduced {
+				path = rp
+			} else {
+				suffix = " no-failing-input-found"
+			}
+		} else if !strings.HasPrefix(r.Output, "replayed: ") {
 			if rp, reproduced := tryReplay(p, prop, r); reproduced {
 				path = rp
 			} else {
